@@ -17,11 +17,10 @@
   INCLUDING what looks wrong:
     * `totalPower := totValPower` aliases one *big.Int, so after `totalPower.Add(totalPower,
       delegationPower)` the validators' commission is divided by validator+delegation power;
-    * the calculator's cache is trusted whenever `cycleNo > 0` (never compared with the current
-      cycle), `burnedout` is sticky, and an error of `Calculate` leaves the old cache in place;
-    * `numofMoreBlocks` may be smaller than the cycle length, so one cycle can distribute more than
-      what was left of the year;
-    * the withdrawn coin is `Value.Int64() * 10^18` (`ToCoinWithBase`), `Validate` checks `Value`.
+    * the year records are only guarded by the per-block amount: nothing in the store checks
+      `Distributed ≤ supply` (it is a theorem of the model since fix 2606b58, not a check);
+    * the withdrawn coin is `Value.Int64() * 10^18` (`ToCoinWithBase`); `Validate` checks `Value`
+      (sign, and since fix d8159a7 that it fits an int64).
 
   Amounts are unbounded integers (math/big; `big.Int.Div` is Euclidean division = Lean's `/` on
   `Int`).  int64 arithmetic (`/`, `%` on heights) is truncated division (`Int.tdiv/tmod`); int64
@@ -96,14 +95,15 @@ def secondsPerCycleLatest (e : Env) (h : Int) : Int × Int :=
   else (e.o.estSecs, e.tm 1)
 
 /-- the loop of `numofMoreBlocksBeforeYearClose` from year index `i` on: first year whose close is
-    at least `window` seconds after the end of the last complete cycle and for which the forecast
-    is not 0; `(0, -1)` when there is none -/
+    at least `window` seconds after the end of the last complete cycle, with the forecast clamped
+    to at least one cycle; `(0, -1)` when there is none -/
 def selectYear (e : Env) (spc tEnd : Int) : List Year → Nat → Int × Int
   | [], _ => (0, -1)
   | y :: ys, i =>
     if y.close - tEnd ≥ e.o.window then
       let n := e.fq ((y.close - tEnd) * e.o.cycle) spc
-      if n = 0 then selectYear e spc tEnd ys (i + 1) else (n, (i : Int))
+      -- fix 2606b58: never forecast fewer blocks than one calculation cycle
+      ((if n < e.o.cycle then e.o.cycle else n), (i : Int))
     else selectYear e spc tEnd ys (i + 1)
 
 /-- `numofMoreBlocksBeforeYearClose` -/
@@ -134,7 +134,8 @@ def recalc (e : Env) (years : List Year) (c : Cache) (h : Int) : CalcRes :=
 /-- `Calculate` (after `Reset(height, rewardYears)`) -/
 def calculate (e : Env) (years : List Year) (c : Cache) (h : Int) : CalcRes :=
   if e.o.cycle = 0 then .crash
-  else if c.cycleNo > 0 ∧ (c.burnedout = true ∨ firstInCycle e.o h = false) then .ok c.amount c
+  -- fix 729d203: the cache is valid for the cycle it was calculated in only
+  else if c.cycleNo > 0 ∧ c.cycleNo = cycleNo e.o h then .ok c.amount c
   else recalc e years c h
 
 /-! ## store_cumulative.go -/
@@ -399,8 +400,15 @@ structure WSt where
   signer    : Int     -- b_<signer>_OLT
   deriving Repr, DecidableEq
 
-/-- `withdrawTx.Validate` (amount part; signatures and fee price are the shell's business, C04) -/
-def validateWithdraw (curOK : Bool) (value : Int) : Bool := curOK && decide (0 ≤ value)
+/-- `withdrawTx.Validate` (amount part; signatures and fee price are the shell's business, C04):
+    known currency, `IsValid` (value ≥ 0) and — since fix d8159a7 — `Value.BigInt().IsInt64()`,
+    because the handler withdraws `Value.Int64() * 10^18` -/
+def validateWithdraw (curOK : Bool) (value : Int) : Bool :=
+  curOK && decide (0 ≤ value) &&
+    decide (-9223372036854775808 ≤ value ∧ value < 9223372036854775808)
+
+/-- the amount check as it was before d8159a7 (sign only): kept to show the int64 guard is needed -/
+def validateWithdrawNoInt64 (curOK : Bool) (value : Int) : Bool := curOK && decide (0 ≤ value)
 
 /-- `runWithdraw`. `stake` = the validator record's stake address when the validator exists.
     The coin is `Value.Int64() * 10^18`. -/
@@ -416,6 +424,14 @@ def runWithdraw (w : WSt) (stake : Option Addr) (signerAddr : Addr) (value : Int
 def withdrawTx (w : WSt) (curOK : Bool) (stake : Option Addr) (signerAddr : Addr) (value charge : Int) :
     Except WErr WSt :=
   if !validateWithdraw curOK value then .error .invalid
+  else match runWithdraw w stake signerAddr value with
+    | .error e => .error e
+    | .ok w' => if w'.signer - charge < 0 then .error .fee else .ok { w' with signer := w'.signer - charge }
+
+/-- the transaction without the int64 guard of d8159a7 (necessity example only) -/
+def withdrawTxNoInt64 (w : WSt) (curOK : Bool) (stake : Option Addr) (signerAddr : Addr)
+    (value charge : Int) : Except WErr WSt :=
+  if !validateWithdrawNoInt64 curOK value then .error .invalid
   else match runWithdraw w stake signerAddr value with
     | .error e => .error e
     | .ok w' => if w'.signer - charge < 0 then .error .fee else .ok { w' with signer := w'.signer - charge }
